@@ -215,6 +215,19 @@ def _kf_joint_unique_before_parsers(family, case, disc):
     return disc.kind == "revalidation-changes-result" and bool(spec.get("drop_invalid_rows"))
 
 
+@known.finding("C03/drop_invalid_rows-coercion-not-reapplied-after-dropping")
+def _kf_drop_coerce_again(family, case, disc):
+    """the rows whose cells cannot be coerced are dropped, the surviving column keeps its un-coerced dtype (an Int64 column
+    whose only null was dropped stays Int64 under Column('int64', coerce=True)); validating the result again coerces it"""
+    spec = case["spec"]
+    if family != "pandas" or disc.kind != "revalidation-changes-result" or not spec.get("drop_invalid_rows"):
+        return False
+    if not (spec.get("coerce") or any(c.get("coerce") for c in spec.get("columns", []))):
+        return False
+    diff = (disc.detail or {}).get("diff") or []
+    return bool(diff) and all(str(x.get("path", "")).startswith(".dtypes[") for x in diff)
+
+
 @known.finding("C03/add_missing_columns-insert-position-ignores-regex-columns")
 def _kf_add_missing_regex_order(family, case, disc):
     spec = case["spec"]
